@@ -1,6 +1,8 @@
 package main
 
 import (
+	"sync"
+	"strconv"
 	"encoding/json"
 	"fmt"
 	"os"
@@ -53,8 +55,16 @@ func loadControls(id string) []control {
 // property: patch.diff is applied to scratch copies of the touched files (outside /repo) and the
 // result is loaded through the packages overlay; the check must report something it does not report
 // on the base.
-func seedControls(base *Ctx, id string, baseRep *Report) []controlResult {
+// ctlJob is the expensive part of one control (load the module with the overlay, run the property's
+// rules, classify): jobs of one property run on a small worker pool and write out[idx].
+type ctlJob struct {
+	idx int
+	run func() controlResult
+}
+
+func seedControls(base *Ctx, id string, baseRep *Report) ([]controlResult, []ctlJob) {
 	var out []controlResult
+	var jobs []ctlJob
 	dirs, _ := filepath.Glob(filepath.Join(verifRoot, "seeded", "*", "meta.json"))
 	sort.Strings(dirs)
 	for _, mf := range dirs {
@@ -124,34 +134,33 @@ func seedControls(base *Ctx, id string, baseRep *Report) []controlResult {
 			overlay[filepath.Join(base.Repo, f)] = nb
 		}
 		os.RemoveAll(tmp)
-		ctx := &Ctx{Repo: base.Repo, Tier: "quick", Overlay: overlay, mods: map[string]*Module{}}
-		rep := runProp(ctx, id)
-		fired := ""
-		for _, r := range rep.Results {
-			if r.Status != Violation && r.Status != Undecided && r.Status != Unresolved {
-				continue
-			}
-			already := false
-			for _, br := range baseRep.Results {
-				if br.Rule == r.Rule && br.Construct == r.Construct && (br.Status == r.Status || br.Status == Known) {
-					already = true
+		out = append(out, controlResult{name, "pending", ""})
+		jobs = append(jobs, ctlJob{len(out) - 1, func() controlResult {
+			ctx := &Ctx{Repo: base.Repo, Tier: "quick", Overlay: overlay, mods: map[string]*Module{}}
+			rep := runProp(ctx, id)
+			fired := ""
+			for _, r := range rep.Results {
+				if r.Status != Violation && r.Status != Undecided && r.Status != Unresolved {
+					continue
+				}
+				already := false
+				for _, br := range baseRep.Results {
+					if br.Rule == r.Rule && br.Construct == r.Construct && (br.Status == r.Status || br.Status == Known) {
+						already = true
+					}
+				}
+				if !already {
+					fired = fmt.Sprintf("%s %s | %s", r.Status, r.Rule, r.Construct)
+					break
 				}
 			}
-			if !already {
-				fired = fmt.Sprintf("%s %s | %s", r.Status, r.Rule, r.Construct)
-				break
+			if fired != "" {
+				return controlResult{name, "fired", fired}
 			}
-		}
-		if fired != "" {
-			out = append(out, controlResult{name, "fired", fired})
-		} else {
-			out = append(out, controlResult{name, "missed", "the seeded change is no longer reported"})
-		}
-		ctx = nil
-		runtime.GC()
-		debug.FreeOSMemory()
+			return controlResult{name, "missed", "the seeded change is no longer reported"}
+		}})
 	}
-	return out
+	return out, jobs
 }
 
 // refactorControls: negative controls. /verif/refactors/<tag>/patch.diff are behaviour-preserving
@@ -159,8 +168,9 @@ func seedControls(base *Ctx, id string, baseRep *Report) []controlResult {
 // concatenation for Sprintf, renames …) written independently of the checker; each passes the
 // repository's tests. For every one whose meta.json lists this property the check must stay silent:
 // a report on such a tree is a false alarm.
-func refactorControls(base *Ctx, id string, baseRep *Report) []controlResult {
+func refactorControls(base *Ctx, id string, baseRep *Report) ([]controlResult, []ctlJob) {
 	var out []controlResult
+	var jobs []ctlJob
 	metas, _ := filepath.Glob(filepath.Join(verifRoot, "refactors", "*", "meta.json"))
 	sort.Strings(metas)
 	for _, mf := range metas {
@@ -228,48 +238,58 @@ func refactorControls(base *Ctx, id string, baseRep *Report) []controlResult {
 			overlay[filepath.Join(base.Repo, f)] = nb
 		}
 		os.RemoveAll(tmp)
-		ctx := &Ctx{Repo: base.Repo, Tier: "quick", Overlay: overlay, mods: map[string]*Module{}}
-		rep := runProp(ctx, id)
-		alarm := ""
-		for _, r := range rep.Results {
-			if r.Status != Violation && r.Status != Undecided && r.Status != Unresolved {
-				continue
-			}
-			already := false
-			for _, br := range baseRep.Results {
-				if br.Rule == r.Rule && br.Construct == r.Construct && (br.Status == r.Status || br.Status == Known) {
-					already = true
+		out = append(out, controlResult{name, "pending", ""})
+		jobs = append(jobs, ctlJob{len(out) - 1, func() controlResult {
+			ctx := &Ctx{Repo: base.Repo, Tier: "quick", Overlay: overlay, mods: map[string]*Module{}}
+			rep := runProp(ctx, id)
+			alarm := ""
+			for _, r := range rep.Results {
+				if r.Status != Violation && r.Status != Undecided && r.Status != Unresolved {
+					continue
+				}
+				already := false
+				for _, br := range baseRep.Results {
+					if br.Rule == r.Rule && br.Construct == r.Construct && (br.Status == r.Status || br.Status == Known) {
+						already = true
+					}
+				}
+				// a known finding keyed by construct stays known on the refactored tree
+				for _, f := range loadKnown().Findings {
+					if f.Property == id && f.Rule == r.Rule && f.Construct == r.Construct {
+						already = true
+					}
+				}
+				if !already {
+					alarm = fmt.Sprintf("%s %s | %s | %s", r.Status, r.Rule, r.Construct, r.Detail)
+					break
 				}
 			}
-			// a known finding keyed by construct stays known on the refactored tree
-			for _, f := range loadKnown().Findings {
-				if f.Property == id && f.Rule == r.Rule && f.Construct == r.Construct {
-					already = true
-				}
+			if alarm != "" {
+				return controlResult{name, "false-alarm", alarm}
 			}
-			if !already {
-				alarm = fmt.Sprintf("%s %s | %s | %s", r.Status, r.Rule, r.Construct, r.Detail)
-				break
-			}
-		}
-		if alarm != "" {
-			out = append(out, controlResult{name, "false-alarm", alarm})
-		} else {
-			out = append(out, controlResult{name, "quiet", "no report on the behaviour-preserving variant"})
-		}
-		ctx = nil
-		runtime.GC()
-		debug.FreeOSMemory()
+			return controlResult{name, "quiet", "no report on the behaviour-preserving variant"}
+		}})
 	}
-	return out
+	return out, jobs
 }
 
 func runControls(base *Ctx, id string, baseRep *Report) []controlResult {
 	var out []controlResult
-	defer func() {}()
-	out = append(out, seedControls(base, id, baseRep)...)
-	out = append(out, refactorControls(base, id, baseRep)...)
+	var jobs []ctlJob
+	{
+		o, j := seedControls(base, id, baseRep)
+		for _, x := range j {
+			jobs = append(jobs, ctlJob{x.idx + len(out), x.run})
+		}
+		out = append(out, o...)
+		o, j = refactorControls(base, id, baseRep)
+		for _, x := range j {
+			jobs = append(jobs, ctlJob{x.idx + len(out), x.run})
+		}
+		out = append(out, o...)
+	}
 	for _, c := range loadControls(id) {
+		c := c
 		abs := filepath.Join(base.Repo, c.File)
 		src, err := os.ReadFile(abs)
 		if err != nil || !strings.Contains(string(src), c.Find) {
@@ -300,6 +320,8 @@ func runControls(base *Ctx, id string, baseRep *Report) []controlResult {
 			out = append(out, controlResult{c.Name, "skipped", "search text of a secondary edit not present (source changed); control not applicable"})
 			continue
 		}
+		out = append(out, controlResult{c.Name, "pending", ""})
+		jobs = append(jobs, ctlJob{len(out) - 1, func() controlResult {
 		ctx := &Ctx{Repo: base.Repo, Tier: "quick", Overlay: overlay, mods: map[string]*Module{}}
 		rep := runProp(ctx, id)
 		fired := false
@@ -324,19 +346,50 @@ func runControls(base *Ctx, id string, baseRep *Report) []controlResult {
 			}
 		}
 		if fired {
-			out = append(out, controlResult{c.Name, "fired", detail})
-		} else {
+			return controlResult{c.Name, "fired", detail}
+		}
+		{
 			var got []string
 			for _, r := range rep.Results {
 				if r.Status == Violation || r.Status == Undecided || r.Status == Unresolved {
 					got = append(got, r.Rule+"|"+r.Construct+"|"+r.Detail)
 				}
 			}
-			out = append(out, controlResult{c.Name, "missed", fmt.Sprintf("expected %s to fire; got %v", c.ExpectRule, got)})
+			return controlResult{c.Name, "missed", fmt.Sprintf("expected %s to fire; got %v", c.ExpectRule, got)}
 		}
-		ctx = nil
-		runtime.GC()
-		debug.FreeOSMemory()
+		}})
 	}
+	runCtlJobs(out, jobs)
 	return out
+}
+
+
+// runCtlJobs executes the replays on a worker pool (KAFCHECK_PAR, default 4: each replay holds one
+// loaded module, about 1 GB) and stores each result at its place.
+func runCtlJobs(out []controlResult, jobs []ctlJob) {
+	par := 4
+	if v := os.Getenv("KAFCHECK_PAR"); v != "" {
+		if n, err := strconv.Atoi(v); err == nil && n > 0 {
+			par = n
+		}
+	}
+	sem := make(chan struct{}, par)
+	var wg sync.WaitGroup
+	for _, j := range jobs {
+		wg.Add(1)
+		sem <- struct{}{}
+		go func(j ctlJob) {
+			defer wg.Done()
+			defer func() { <-sem }()
+			defer func() {
+				if e := recover(); e != nil {
+					out[j.idx] = controlResult{out[j.idx].Name, "missed", fmt.Sprintf("replay panicked: %v", e)}
+				}
+			}()
+			out[j.idx] = j.run()
+			runtime.GC()
+			debug.FreeOSMemory()
+		}(j)
+	}
+	wg.Wait()
 }
